@@ -31,12 +31,26 @@ type Case struct {
 func genCase(t *rapid.T) Case {
 	var c Case
 	c.GPUType = rapid.SampledFrom([]string{"r9nano", "r9nano", "mi300a"}).Draw(t, "gputype")
-	c.Prog = kgen.GenProgram(t, kgen.GenOpts{MaxItems: 1536, MaxOps: 24, LDS: true, Partial: true, SubDword: true, SBurst: rapid.Bool().Draw(t, "sbursts")})
+	opts := kgen.GenOpts{MaxItems: 1536, MaxOps: 24, LDS: true, Partial: true, SubDword: true, SBurst: rapid.Bool().Draw(t, "sbursts"), TrailSLoad: true, WaveDep: true}
+	crowded := rapid.IntRange(0, 3).Draw(t, "crowded") == 0
+	if crowded {
+		// one compute unit with 6-10 resident 256-item groups that exchange data through barriers
+		// (more wavefronts waiting at barriers than the scheduler's barrier buffer holds)
+		groups := rapid.IntRange(6, 10).Draw(t, "groups")
+		opts.FixedGeo = &kgen.Geometry{Grid: [3]uint32{uint32(256 * groups), 1, 1}, WG: [3]uint16{256, 1, 1}}
+		opts.Comm, opts.Partial, opts.MaxOps, opts.MaxValues = true, false, 10, 8
+		opts.LateWave = rapid.Bool().Draw(t, "latewave")
+	}
+	c.Prog = kgen.GenProgram(t, opts)
 	if c.GPUType == "mi300a" && rapid.IntRange(0, 2).Draw(t, "gfx9") > 0 {
 		// the encodings and the emulator of the architecture the MI300A model is shipped for;
 		// half of them as version-5 code objects (work-item ids packed into v0)
 		c.Prog.GFX9 = true
 		c.Prog.PackedIDs = rapid.Bool().Draw(t, "packed-ids")
+	}
+	if crowded {
+		c.CUPerSA, c.SAs = 1, 1
+		return c
 	}
 	if rapid.Bool().Draw(t, "knobs") {
 		c.CUPerSA = rapid.SampledFrom([]int{0, 1, 2, 4}).Draw(t, "cupersa")
